@@ -517,7 +517,12 @@ func init() {
 			nr = 300
 		}
 		genConcRoots(r, emit, nr)
-	}, map[string]runner{"Hist": runHist, "Conc": runConc, "ConcRoots": runConcRoots})
+		nf := 60
+		if tier == "thorough" {
+			nf = 1500
+		}
+		genConcFind(r, emit, nf)
+	}, map[string]runner{"Hist": runHist, "Conc": runConc, "ConcRoots": runConcRoots, "Find": runFind})
 	register("C06", func(tier string, r *Rng, emit func(Case)) {
 		n := 600
 		if tier == "thorough" {
